@@ -827,3 +827,26 @@ M('C12', 'c12-monitor-killed-once', 'openhtf/core/monitors.py',
   "        while monitor_thread.is_alive():\n          monitor_thread.kill()\n          monitor_thread.join(_KILL_RETRY_INTERVAL_S)\n",
   "        monitor_thread.kill()\n        monitor_thread.join()\n",
   'F37 reverted: the monitor thread is asked to end only once and joined without a time-out')
+
+
+# ---------------------------------------------------------------- round 6
+M('C05', 'c05-options-layer-resets-repeat-limit', 'openhtf/core/phase_descriptor.py',
+  "  repeat_limit = attr.ib(type=Optional[int], default=None)\n",
+  "  repeat_limit = attr.ib(type=Optional[int], default=DEFAULT_REPEAT_LIMIT)\n",
+  'a second PhaseOptions layer that does not mention repeat_limit resets it to the default')
+M('C06', 'c06-with-args-drops-plain-validators', 'openhtf/core/measurements.py',
+  "        v.with_args(**kwargs) if hasattr(v, 'with_args') else v\n        for v in self.validators\n",
+  "        v.with_args(**kwargs) for v in self.validators\n        if hasattr(v, 'with_args')\n",
+  'Measurement.with_args drops validators that have no with_args method')
+M('C11', 'c11-monitor-args-updated-in-place', 'openhtf/core/monitors.py',
+  "    return self.monitor_desc.with_args(**kwargs)(self.test_state)\n",
+  "    self.monitor_desc.extra_kwargs.update(kwargs)\n    return self.monitor_desc(self.test_state)\n",
+  'the shared monitor descriptor is updated in place with the monitored phase\'s arguments')
+M('C17', 'c17-unbuffered-staging-file', 'openhtf/output/callbacks/__init__.py',
+  "    self.temp = tempfile.NamedTemporaryFile(delete=False)\n",
+  "    self.temp = tempfile.NamedTemporaryFile(delete=False, buffering=0)\n",
+  'unbuffered staging file: a write cut short by the OS returns a short count instead of raising')
+M('C18', 'c18-phase-finished-notified-before-cleared', 'openhtf/core/test_state.py',
+  "      self.running_phase_state = None\n      self._running_test_api = None\n      self.notify_update()  # Phase finished.\n",
+  "      self.notify_update()  # Phase finished.\n      self.running_phase_state = None\n      self._running_test_api = None\n",
+  'the phase-finished notification is issued before the running phase is cleared')
